@@ -20,6 +20,10 @@ mod reffilter;
 mod refzinc;
 mod mon_c10;
 mod mon_c12;
+mod mon_c13;
+mod mon_c14;
+mod refdefs;
+mod mon_c15;
 mod mon_c19;
 
 use ctx::{Ctx, Tier};
@@ -114,6 +118,10 @@ fn main() {
         "C09" => mon_c09::run(&mut ctx),
         "C10" => mon_c10::run(&mut ctx),
         "C12" => mon_c12::run(&mut ctx),
+        "C13" => mon_c13::run(&mut ctx),
+        "C14" => mon_c14::run(&mut ctx),
+        "C15" => mon_c15::run_c15(&mut ctx),
+        "C16" => mon_c15::run_c16(&mut ctx),
         "C19" => mon_c19::run(&mut ctx),
         _ => {
             eprintln!("unknown property {prop}");
